@@ -142,8 +142,10 @@ def fixed_circuit(B, N, rng, cls):
     circ = B.circuit.identity_circuit(N) if cls == "CliffordCircuit" else B.circuit.Circuit(N)
     for s in prog:
         circ.take(PR.make_gate(B, s, N))
-    if rng.integers(2):
+    compiled = bool(rng.integers(2))
+    if compiled:
         circ.compile()
+    circ._vp_compiled_by_harness = compiled
     return circ, prog
 
 
@@ -216,8 +218,8 @@ def run_shadow(shard, rec, B):
             more = PR.rand_program(rng, N, int(rng.integers(1, 4)))
             for sp_ in more:
                 circ.take(PR.make_gate(B, sp_, N))
-            if circ.forward_map is not None:
-                circ.compile()          # documented: recompile after changing a compiled circuit
+            if getattr(circ, "_vp_compiled_by_harness", False):
+                circ.compile()          # documented: recompile after changing a circuit that the USER compiled
             prog2 = prog + more
             yielded2 = []
             orig2 = circ.povm
